@@ -84,7 +84,7 @@ var reIdent = reWord
 
 func runC11(tier string) int {
 	run := ev.New("C11", tier, "exploration")
-	run.Rule("positive side: random valid multi-file programs (idl.Generate: core pool = idl.CoreConfig; in the thorough tier one pool per stress class = CoreConfig + exactly one flag) and the hand-written witness programs of cmd/c11/witnesses, each compiled for json first (parse/validation gate) and then for the selected (target, option set) pairs; every emitted file goes to its language oracle (go build + go vet against lib/go; CPython 2.7 / 3 compile; javac parser; html.parser tag balance; json.loads + documentation/json.md shape; Dart lexical balance only).  negative side: truncation at every offset of small files, token delete/duplicate/swap, byte flips/inserts, line deletion, splices, invalid-by-construction programs (unknown type, duplicate field id, missing/circular/self include, unbalanced braces, unterminated literals, cyclic typedefs, cyclic extends, garbage bytes), duplicate names, numeric extremes, nesting depth 150/1000, empty file, 1 MiB of one bracket, huge identifiers; oracle = no Go runtime failure signature / exit status 2 / signal, termination within a 20 s watchdog (retried once), exit 0 only with loadable json and never for invalid-by-construction inputs.  distinct = (target, option set, pool, class) on the positive side and (class, target, exit status) on the negative side")
+	run.Rule("positive side: random valid multi-file programs (idl.Generate: core pool = idl.CoreConfig; in the thorough tier one pool per stress class = CoreConfig + exactly one flag) and the hand-written witness programs of cmd/c11/witnesses, each compiled for json first (parse/validation gate) and then for the selected (target, option set) pairs; every emitted file goes to its language oracle (go build + go vet against lib/go; CPython 2.7 / 3 compile; javac parser; html.parser tag balance; json.loads + documentation/json.md shape; Dart lexical balance only); regeneration pool (regen.go): the -out directory already holds the output of an earlier run -- an earlier revision of the program (larger, smaller, declarations renamed to shorter names, own services / scopes removed) or another option set / Python flavour -- and the second compilation into the same directory must exit 0 and every file it writes (files of the earlier run carry a sentinel modification time; the ones whose time changed were written by the judged run) goes to the same language oracles (Go: go/parser only, the package directory also holds stale files).  negative side: truncation at every offset of small files, token delete/duplicate/swap, byte flips/inserts, line deletion, splices, invalid-by-construction programs (unknown type, duplicate field id, missing/circular/self include, unbalanced braces, unterminated literals, cyclic typedefs, cyclic extends, garbage bytes), duplicate names, numeric extremes, nesting depth 150/1000, empty file, 1 MiB of one bracket, huge identifiers, near-miss identifiers (nearmiss.go: every position where the grammar demands an identifier, scope prefix variables included, filled with a leading digit / digits only / nothing / punctuation only / punctuation at the start, inside, at the end: invalid by construction for every target; the same position filled with a proper identifier must compile); oracle = no Go runtime failure signature / exit status 2 / signal, termination within a 20 s watchdog (retried once), exit 0 only with loadable json and never for invalid-by-construction inputs.  distinct = (target, option set, pool, class) on the positive side and (class, target, exit status) on the negative side")
 	run.Assume("go build/vet (Go 1.23), CPython 2.7.18 and 3.11, javac 17's parser and Python's html.parser are correct judges of their languages")
 	run.Assume("Dart: no toolchain in the sandbox, lexical balance check only; Java: parse only, no symbol resolution (runtime jars absent)")
 	run.Assume("a diagnostic printed from an explicit panic(\"...\") recovered by main.go is a diagnostic, not a crash")
@@ -165,6 +165,14 @@ func runC11(tier string) int {
 		u := &unit{Idx: len(units), ID: "witness:" + w.Name, Pool: "witness", Class: w.Meta.Class, Src: w.Files, Root: w.Meta.Root, Features: []string{"witness:" + w.Meta.Class}, Names: map[string]bool{}}
 		units = append(units, u)
 	}
+	// regeneration pool: -out already holds the output of an earlier run (regen.go)
+	nregen := 2
+	if run.Thorough() {
+		nregen = 10
+	}
+	regen := regenUnits(run.Rand, nregen, len(units))
+	units = append(units, regen...)
+	run.Set("programs_regeneration(base programs x kinds)", len(regen))
 	run.Set("programs_core", ncore)
 	run.Set("programs_per_stress_class", nstress)
 	run.Set("stress_programs_that_contain_their_class", classPresent)
@@ -185,6 +193,14 @@ func runC11(tier string) int {
 		if err := c.writeUnit(u); err != nil {
 			run.Inconclusive("cannot write sources: " + err.Error())
 			return run.Finish()
+		}
+		if u.Pool == "regen" {
+			if err := c.writeEarlier(u); err != nil {
+				run.Inconclusive("cannot write sources: " + err.Error())
+				return run.Finish()
+			}
+			c.addRegenComps(u, unitComps, run.Thorough(), int(run.Seed%1000))
+			continue
 		}
 		var h *emit.Harness
 		add := func(t target, s optSet) {
@@ -306,6 +322,14 @@ func runC11(tier string) int {
 			negs = append(negs, &negCase{I: len(negs), Class: w.Meta.Class, Files: w.Files, Root: w.Meta.Root, Target: t.Name, Invalid: w.Meta.Invalid, Note: "witness " + w.Name})
 		}
 	}
+	// near-miss identifiers in every identifier position (nearmiss.go)
+	nNearMiss := 0
+	for _, nc := range genNearMisses(int64(run.Seed), run.Thorough()) {
+		nc.I = len(negs)
+		negs = append(negs, nc)
+		nNearMiss++
+	}
+	run.Set("negative_inputs_identifier_near_miss(incl. controls)", nNearMiss)
 	st := &negStats{byClass: map[string]int{}, exits: map[string]map[string]int{}, wall: map[string]float64{}}
 	nch := make(chan *negCase)
 	var nwg sync.WaitGroup
